@@ -553,7 +553,7 @@ func init() {
 		}
 		core.RunLeg(c, core.Leg[c07Case]{
 			Name: "A", Kind: "correspondence+oracle",
-			Rule: "random patterns: alternations (1-3 branches, empty branches) of sequences of 1-3 atoms drawn from nullable (a*, x?, (a|), .*?), zero-width (\\b \\B ^ $ \\G \\A \\z \\Z, look-ahead/-behind incl. (?<=a*), (?<!\\G)) and consuming leaves, nested in capturing/non-capturing/atomic/look-around groups with quantifiers; RightToLeft in half the cases, Multiline/IgnoreCase/Singleline sometimes; inputs of 0-12 runes over {a,b,x,é,日,😀,\\n,space}; n in {-1,0,1,2,3}. non-trivial = at least one match; distinct by (pattern, options, input). Oracle (no model): FindRunesMatch/FindStringMatch+FindNextMatch strictly advancing, disjoint, no repeated empty match, <= len+1 matches, resume position = match end; every match = VerifNaiveScan from the previous end (one further after an empty match, \\G there); FindAllRunesIndex/FindAllStringIndex and compat FindAllStringIndex/FindAllIndex/FindAllStringSubmatchIndex/FindAllString = sequence minus empty matches adjacent to the match before, truncated to n, nil when empty. Correspondence: Lean iterate/findAll/compatForEach over the table of VerifAttemptAt results for every (\\G origin, position) + VerifFindFirstChar answers + MinRequiredLength vs the Go sequences (incl. resume positions)",
+			Rule:   "random patterns: alternations (1-3 branches, empty branches) of sequences of 1-3 atoms drawn from nullable (a*, x?, (a|), .*?), zero-width (\\b \\B ^ $ \\G \\A \\z \\Z, look-ahead/-behind incl. (?<=a*), (?<!\\G)) and consuming leaves, nested in capturing/non-capturing/atomic/look-around groups with quantifiers; RightToLeft in half the cases, Multiline/IgnoreCase/Singleline sometimes; inputs of 0-12 runes over {a,b,x,é,日,😀,\\n,space}; n in {-1,0,1,2,3}. non-trivial = at least one match; distinct by (pattern, options, input). Oracle (no model): FindRunesMatch/FindStringMatch+FindNextMatch strictly advancing, disjoint, no repeated empty match, <= len+1 matches, resume position = match end; every match = VerifNaiveScan from the previous end (one further after an empty match, \\G there); FindAllRunesIndex/FindAllStringIndex and compat FindAllStringIndex/FindAllIndex/FindAllStringSubmatchIndex/FindAllString = sequence minus empty matches adjacent to the match before, truncated to n, nil when empty. Correspondence: Lean iterate/findAll/compatForEach over the table of VerifAttemptAt results for every (\\G origin, position) + VerifFindFirstChar answers + MinRequiredLength vs the Go sequences (incl. resume positions)",
 			Corpus: corpus, N: c.N(4000, 150000), Gen: c07Gen, Check: c07Check, Batch: 1000,
 		})
 	})
